@@ -531,7 +531,10 @@ func (c *Conn) handleCall(ctx context.Context, call rpccp.Call, releaseCall capn
 			if err != nil {
 				return err
 			}
-			if err := mm.SetCall(call); err != nil {
+			err = mm.SetCall(call)
+			// Copying capability pointers adds entries to the cap table.
+			clearCapTable(m.Message())
+			if err != nil {
 				return err
 			}
 			return nil
@@ -1282,7 +1285,10 @@ func (c *Conn) handleDisembargo(ctx context.Context, d rpccp.Disembargo) error {
 			if err != nil {
 				return err
 			}
-			if err := mm.SetDisembargo(d); err != nil {
+			err = mm.SetDisembargo(d)
+			// Copying capability pointers adds entries to the cap table.
+			clearCapTable(msg.Message())
+			if err != nil {
 				return err
 			}
 			return nil
@@ -1299,7 +1305,10 @@ func (c *Conn) handleUnknownMessage(ctx context.Context, recv rpccp.Message) err
 	c.reportf("unknown message type %v from remote", recv.Which())
 	c.mu.Lock()
 	err := c.sendMessage(ctx, func(msg rpccp.Message) error {
-		return msg.SetUnimplemented(recv)
+		err := msg.SetUnimplemented(recv)
+		// Copying capability pointers adds entries to the cap table.
+		clearCapTable(msg.Message())
+		return err
 	})
 	c.mu.Unlock()
 	if err != nil {
